@@ -421,8 +421,9 @@ pub fn run_c05(a: &Args) {
                     continue;
                 }
             }
+            let raw = oracle::betweenness_unscaled(&d, weighted, tol);
             for normalized in [false, true] {
-                let want = oracle::betweenness(&d, weighted, normalized, tol);
+                let want = oracle::scale_betweenness(&d, &raw, normalized);
                 ctx::eval(1);
                 match guard("betweenness_centrality", || betweenness::betweenness_centrality(&g, weighted, normalized)) {
                     Err(c) => ctx::violation(&format!("C05|betweenness_centrality|{}|{}", c.class(), kind), "betweenness_centrality panicked", json!({"caught": c.json(), "graph": case.json()})),
